@@ -304,10 +304,10 @@ EvalVal(cf, S, v, amb) ==
     [] Tag(v) \in {"list", "tuple"} ->
          LET r == EvalSeq(cf, S, v[2], amb, <<>>) IN [s |-> r.s, v |-> <<Tag(v), r.v>>, e |-> r.e]
     [] Tag(v) = "dict" ->
-         LET ks == [i \in 1..Len(v[2]) |-> v[2][i][1]]
-             vs == [i \in 1..Len(v[2]) |-> v[2][i][2]]
-             r  == EvalSeq(cf, S, vs, amb, <<>>)
-         IN [s |-> r.s, v |-> <<"dict", [i \in 1..Len(r.v) |-> <<ks[i], r.v[i]>>]>>, e |-> r.e]
+         \* copy.deepcopy of a dict copies key, value, key, value ...: references among the keys are evaluated too
+         LET kv == [i \in 1..(2 * Len(v[2])) |-> IF i % 2 = 1 THEN v[2][(i + 1) \div 2][1] ELSE v[2][i \div 2][2]]
+             r  == EvalSeq(cf, S, kv, amb, <<>>)
+         IN [s |-> r.s, v |-> <<"dict", [i \in 1..(Len(r.v) \div 2) |-> <<r.v[2 * i - 1], r.v[2 * i]>>]>>, e |-> r.e]
     [] OTHER -> [s |-> S, v |-> v, e |-> "ok"]
 
 EvalSeq(cf, S, vs, amb, acc) ==
@@ -378,7 +378,7 @@ BareMethod(sp) == ResolveConf(sp)[1] = "one" /\ IsMethod(ResolveConf(sp)[2]) /\ 
 RECURSIVE Flatten(_)
 Flatten(v) ==
   CASE Tag(v) \in {"list", "tuple"} -> {v} \cup UNION { Flatten(v[2][i]) : i \in 1..Len(v[2]) }
-    [] Tag(v) = "dict" -> {v} \cup UNION { Flatten(v[2][i][2]) : i \in 1..Len(v[2]) }
+    [] Tag(v) = "dict" -> {v} \cup UNION { Flatten(v[2][i][1]) \cup Flatten(v[2][i][2]) : i \in 1..Len(v[2]) }
     [] OTHER -> {v}
 AllValues(cf) == UNION { Flatten(cf[i].val) : i \in 1..Len(cf) }
 
@@ -967,7 +967,7 @@ RECURSIVE RefOccs(_)
 RefOccs(v) ==
   CASE Tag(v) = "ref" -> IF v[4] = "call" THEN <<v>> ELSE <<>>
     [] Tag(v) \in {"list", "tuple"} -> FlattenSeq([i \in 1..Len(v[2]) |-> RefOccs(v[2][i])])
-    [] Tag(v) = "dict" -> FlattenSeq([i \in 1..Len(v[2]) |-> RefOccs(v[2][i][2])])
+    [] Tag(v) = "dict" -> FlattenSeq([i \in 1..Len(v[2]) |-> RefOccs(v[2][i][1]) \o RefOccs(v[2][i][2])])
     [] OTHER -> <<>>
 
 \* who must be invoked, under which scope, when `c` is called under `scope` with the caller
